@@ -9,7 +9,8 @@ after k messages = producer's first k+2 nodes': S.W-store (no other writer of no
 C19.R-recv (per received message exactly one verbatim push, registration under the appended index, one forward iff
 a sender is set; true only if the handle was present or is the one just appended; false only if the channel is empty
 or absent; nothing consumed when the handle is present), C19.F-init (every frontend constructor starts from
-Bdd::new, whose two constant nodes are never sent). Both node and recv run under &mut self, so no interleaving can
+Bdd::new, whose two constant nodes are never sent), C19.W-ends (the channel ends are written only by the setters and
+constructors: neither node nor recv replaces or clears an end, so a relay keeps forwarding). Both node and recv run under &mut self, so no interleaving can
 fall between push and send."""
 NOT_DECIDED = "crossbeam channels are trusted to be FIFO and lossless."
 TECHNIQUE = "static analysis: path-sensitive MIR summaries with ordered effects (push/send pairing), who-may-write census"
@@ -55,6 +56,32 @@ def F_init(ctx, lib):
     ctx.floor(rule, "constructors/setters", n, 5)
 
 
+ENDS_WRITERS = {"Bdd::set_sender": "the documented setter", "Bdd::set_receiver": "the documented setter", "Bdd::new": "initialises both ends to None",
+                "Bdd::default": "constructor"}
+
+
+def W_ends(ctx, lib):
+    rule = "C19.W-ends"
+    ctx.rule(rule, "the channel ends Bdd.sender / Bdd.receiver are written only by " + ", ".join(sorted(ENDS_WRITERS)) + " and serde; in particular neither Bdd::node nor "
+                   "Bdd::recv (nor anything they call) replaces or clears an end: a relay that drops its sender on an empty poll stops forwarding the nodes that arrive later; "
+                   "reads (as_ref / pattern tests / shared borrows for send, try_recv) are free")
+    n = 0
+    for field in ("sender", "receiver"):
+        for (body, bb, it, role, pl, i) in kernel.field_uses(lib, "obdd::Bdd", field):
+            n += 1
+            if "_serde" in body.path:
+                continue
+            last = i == len(pl["p"]) - 1
+            writes = (role == "write" and last) or role == "refmut" or (role == "move" and last and any(pe["k"] == "deref" for pe in pl["p"][:i])) or (role == "drop" and last)
+            if not writes:
+                continue
+            fn = lib.enclosing_fn(body)
+            owner = fn.qual if fn else body.qual
+            ctx.ob(rule, "%s:%s" % (field, owner), owner in ENDS_WRITERS, where=body.where(it.get("loc")), expected="a setter / constructor", found="%s of Bdd.%s in %s" % (role, field, owner),
+                   kind="refuted" if owner in ("Bdd::node", "Bdd::recv") else "unreviewed")
+    ctx.floor(rule, "uses of Bdd.sender / Bdd.receiver", n, 4)
+
+
 def check(ctx):
     for cfg in configs(ctx.tier):
         ctx.cfg = cfg.name
@@ -69,6 +96,7 @@ def check(ctx):
                           "true only if the handle was already below nodes.len() or equals the handle just appended; false only when "
                           "the channel is empty or absent; nothing is consumed when the handle is already present")
             F_init(ctx, lib)
+            W_ends(ctx, lib)
         else:
             absent = [b.path for b in lib.all_bodies if "obdd::frontend" in b.path]
             ctx.ob("C19.cfg", "no-frontend-code", not absent, expected="frontend functions absent without the feature", found=absent[:3])
